@@ -233,11 +233,15 @@ def run_impl(roots):
     from statham.serializers.orderer import orderer
     from statham.schema.exceptions import SchemaParseError
 
+    out = []
     try:
         with time_limit(10):
-            out = list(orderer(*roots))
+            for c in orderer(*roots):          # consumed step by step: what was yielded before a refusal is observed
+                out.append(c)
         return ("ok", out)
     except SchemaParseError:
+        if out:
+            return ("partial:%d classes yielded, then SchemaParseError" % len(out), None)
         return ("SchemaParseError", None)
     except ImplTimeout as exc:
         return ("timeout", str(exc))
@@ -252,7 +256,7 @@ def oracle(nodes, rootids, order, outcome):
     kind, out = outcome
     if cyclic:
         if kind != "SchemaParseError":
-            return "cyclic class dependencies but orderer returned %s" % kind
+            return "cyclic class dependencies but orderer returned %s (it must raise the schema-parse error INSTEAD of yielding a partial order)" % kind
         return None
     if kind != "ok":
         return "acyclic graph but orderer raised %s (%s)" % (kind, out)
